@@ -1888,6 +1888,10 @@ class SystemSuite(Suite):
                 from suites import sysgen
                 sc = sysgen.cancel_chain(rng)        # structured family: failing root + flagged chains across batches
                 add_multinode(sc, mode)
+            if mode == "flaky" and prop == "C16" and "teardown" not in sc.get("lifecycle", {}):
+                # C16 under scheduler failures is about the teardown command: always configured
+                sc["lifecycle"] = dict(sc.get("lifecycle", {}), teardown="hook teardown")
+                sc.setdefault("hook_rc", {"teardown": 0, "node_teardown": 0})
             if mode == "resubmit" and prop == "C07":
                 sc["resub"]["regroupProb"] = 1.0             # C07: every resubmission passes an edited groups file (-s)
             out.append({"op": "system.trace", "sc": sc, "mode": mode, "seed": rng.randrange(1 << 30),
